@@ -69,7 +69,7 @@ def shrink_candidates(scn):
 
 def describe():
     return {
-        'rule': 'per executed instruction: plain vs contended twin (registers, memory, ports) and contended delta-T minus plain delta-T == RefULA.total_delay(T0 mod frame, RefZ80 bus cycles). Distinct = distinct (dispatch slot, 48K/128K, T0 mod 8) triples.',
+        'rule': 'per executed instruction: plain vs contended twin (registers, memory, ports) and contended delta-T minus plain delta-T == RefULA.total_delay(T0 mod frame, RefZ80 bus cycles). Frame sweeps (frames.py): each of 214 instruction templates at every T-state of the frame on 6 machine variants (all 41088 chunks in the thorough tier, a seeded subset of 1600 in the quick tier). Distinct = distinct (dispatch slot, 48K/128K, T0 mod 8) triples.',
         'assumptions': ['RefZ80 bus-cycle lists follow the published per-instruction breakdown (pc:4, pc+1:3, ir:1, hl:3 ...); RefULA follows the published 6,5,4,3,2,1,0,0 pattern and I/O patterns',
                         'interrupt acceptance adds 13/19 T with no contention (SkoolKit convention, checked as such)',
                         'bits 3/5 of F are not compared between plain and contended engines (MEMPTR-dependent)'],
